@@ -57,3 +57,24 @@ _scan = _loop[_loop.find("while (aio != NULL)"):_loop.find("for (uint32_t i = 0;
 _scan_c = _re.sub(r"//[^\n]*|NNI_VERIF_AIO\([^;]*;", "", _scan)
 _ok = bool(_re.search(r"if\s*\(\(q->eq_stop\s*\|\|\s*aio->a_expire\s*<\s*now\)\s*&&\s*\(exp_idx\s*<\s*NNI_EXPIRE_BATCH\)\)\s*\{.*?continue;\s*\}\s*if\s*\(aio->a_expire\s*<\s*q->eq_next\)\s*\{\s*q->eq_next\s*=\s*aio->a_expire;\s*\}\s*aio\s*=\s*nni_list_next\(&q->eq_list,\s*aio\);", _scan_c, _re.S))
 extra_text.append("Definition C02_EXPIRE_SCAN_SHAPE : bool := %s.  (* aio.c nni_aio_expire_loop scan: (due && room) => batch, else lower eq_next - the shape Core/ExpireScan.scan models *)" % ("true" if _ok else "false"))
+
+# ---- which form of nni_aio_abort does the source have?  (repaired, fix e9a11c8: an operation that has
+#      completed keeps its result: `if ((fn == NULL) && (!aio->a_done))`, a_done set by finish / failed
+#      start / sleep expiry, cleared by reset / successful start) ----
+_ab = _a[_a.find("\nnni_aio_abort(nni_aio *aio, nng_err rv)"):]
+_ab = _ab[:_ab.find("\n}\n")]
+_f1 = bool(_re.search(r"if\s*\(\(fn\s*==\s*NULL\)\s*&&\s*\(!aio->a_done\)\)\s*\{", _ab))
+_fin = _a[_a.find("\nnni_aio_finish_impl("):]
+_fin = _fin[:_fin.find("\n}\n")]
+_f2 = "aio->a_done       = true;" in _fin or bool(_re.search(r"aio->a_done\s*=\s*true;", _fin))
+_rs = _a[_a.find("\nnni_aio_reset(nni_aio *aio)"):]
+_rs = _rs[:_rs.find("\n}\n")]
+_f3 = bool(_re.search(r"aio->a_done\s*=\s*false;", _rs))
+_stt = _a[_a.find("\nnni_aio_start(nni_aio *aio, nni_aio_cancel_fn cancel, void *data)"):]
+_stt = _stt[:_stt.find("\n}\n")]
+_f4 = len(_re.findall(r"aio->a_done\s*=\s*true;", _stt)) == 3 and len(_re.findall(r"aio->a_done\s*=\s*false;", _stt)) == 1
+_f5 = bool(_re.search(r"aio->a_sleep\s*=\s*false;\s*aio->a_done\s*=\s*true;", _loop))
+_pinned = bool(_re.search(r"if\s*\(fn\s*==\s*NULL\)\s*\{", _ab)) and "a_done" not in _a
+if not (_f1 and _f2 and _f3 and _f4 and _f5) and not _pinned:
+    missing.append("nni_aio_abort / a_done: neither the pinned nor the repaired form (abort %s finish %s reset %s start %s expire %s)" % (_f1, _f2, _f3, _f4, _f5))
+extra_text.append("Definition C02_ABORT_DONE_FIXED : bool := %s.  (* aio.c: nni_aio_abort leaves a completed operation alone (a_done) *)" % ("true" if (_f1 and _f2 and _f3 and _f4 and _f5) else "false"))
